@@ -811,15 +811,25 @@ func callOrder(fd *ast.FuncDecl, only []string) []string {
 	//   "{for"    every for/range statement is bracketed by "{for" … "}" (loop NESTING becomes part of the fact)
 	//   "return"  every return statement is recorded as "return" (C18: WHERE the error check sits between a load
 	//             attempt and the assignments that record it)
+	//   "=:name"  an assignment to the local variable `name` is recorded as "=:name" (C19)
+	//   "continue" every continue statement (C19: which calls of a loop body sit behind the membership test)
 	var visit func(n ast.Node) bool
 	visit = func(n ast.Node) bool {
 		if _, ok := n.(*ast.ReturnStmt); ok && keep["return"] {
 			res = append(res, "return")
 		}
+		if bs, ok := n.(*ast.BranchStmt); ok && bs.Tok == token.CONTINUE && keep["continue"] {
+			res = append(res, "continue")
+		}
 		if as, ok := n.(*ast.AssignStmt); ok {
 			for _, l := range as.Lhs {
 				if se, ok := l.(*ast.SelectorExpr); ok && keep["="+se.Sel.Name] {
 					res = append(res, "="+se.Sel.Name)
+				}
+				// "=:name": every assignment (:=, =, +=, …) to the LOCAL variable `name` (C19: a validated
+				// name must not be re-assigned between its validation and its use)
+				if id, ok := l.(*ast.Ident); ok && keep["=:"+id.Name] {
+					res = append(res, "=:"+id.Name)
 				}
 			}
 		}
